@@ -120,13 +120,10 @@ class PathNode(ConfigList):
         elif ref_point == 'parent':
             if self.ayns.source_file is None:
                 raise ValueError('!path node with :parent reference requires to know source file of the node, but the node is missing this information')
-            src = pathlib.Path(self.ayns.source_file)
-            if ref_point_args >= len(src.parents):
-                diff = ref_point_args - len(src.parents) + 1
-                ref_point_args = len(src.parents) - 1
-                args = ['..'] * diff + args
-
-            ret = src.parents[ref_point_args].joinpath(*args)
+            # go up textually: pathlib's parents of a relative name treat a leading '..' as an ordinary
+            # component (the parent of '..' is '.'), which denotes the wrong directory
+            src = os.path.normpath(os.path.join(str(self.ayns.source_file), *(['..'] * (ref_point_args + 1))))
+            ret = pathlib.Path(src).joinpath(*args)
         elif ref_point == 'abs':
             ret = pathlib.Path(ref_point_args).joinpath(*args)
         else:
